@@ -366,13 +366,12 @@ increasing timestamps or unchanged re-sends (`wellFormed true`; `pipeline_faithf
 * the same timestamp with *another* value (accepted unless the two notifications are
   `proto.Equal`, which the model decides on raw renderings): needs `RawFaithful` threaded through
   the run invariant as one more component (which update each stored leaf came from);
-* the STREAM clause: convergence of a STREAM subscriber is proved on the Subscribe LTS
-  (`C04.converges`, `C04.no_missed_change`: abstract keys / values / regions, every interleaving);
-  the pipeline composes the *sequential* Subscribe model (`Model/Subscribe.lean`, quiescent
-  schedule, concrete notifications), and the refinement between the two — "the sender delivers,
-  per leaf, the last queued value after the deletes queued before it", composed with the feed's
-  event order (C03) and the client's wildcard delete — is not proved here.  The executable model
-  computes the clause and the correspondence checks it (component `e2e`, every subscription
+* the STREAM clause is proved in `Props/C01Stream.lean` (`pipeline_faithful_stream_partial`) for `wellFormed true`
+  streams, no target literally named `*`, and `ExactStream` (values on which `value.Equal` is the identity: every
+  value without a float/double — `exactV_of_noFloat`), composing `C04Seq.stream_converges_partial` (the
+  sequential Subscribe model, every history).  Without `ExactStream` the literal statement is false of model and
+  code (`pipeline_faithful_refuted`): `+0.0` then `-0.0` is withheld as unchanged, a STREAM client keeps `+0.0`.
+  The correspondence checks the clause on the real code (component `e2e`, every subscription
   point of the exhaustive scope, random ones elsewhere). -/
 def pipeline_faithful : Prop :=
   ∀ (enc : String → String) (cfg : TargetCfg.Cfg), TargetCfg.validate cfg = .ok () →
